@@ -118,7 +118,15 @@ OnListBegin(e) ==
 OnListEnd(e) ==
   LET c == m.calls[e.id] IN
   /\ (IF e.ok => (IF e.kind = "read" THEN e.cv >= c.hs
-                    ELSE \E v \in 0..m.ver[e.item] : m.names[e.item][v + 1] = AsSet(e.names) /\ v >= c.hs)
+                    ELSE IF e.pages <= 1
+                      \* one answer: it is the list of some version at least that new
+                      THEN \E v \in 0..m.ver[e.item] : m.names[e.item][v + 1] = AsSet(e.names) /\ v >= c.hs
+                      \* a walk over several pages may see different versions on different pages: whether a feature
+                      \* is listed or not is as in some version at least that new
+                      ELSE LET R == AsSet(e.names)
+                               V == {v \in 0..m.ver[e.item] : v >= c.hs}
+                               U == R \cup UNION {m.names[e.item][v + 1] : v \in 0..m.ver[e.item]} IN
+                           \A x \in U : \E v \in V : (x \in R) = (x \in m.names[e.item][v + 1]))
         THEN TRUE ELSE Fail2("C18.Fresh", e.s, e.item))
   /\ m' = m
 
